@@ -252,10 +252,11 @@ fn with_watchdog<R>(tier: Tier, group: &str, resolve: &(dyn Fn(u64, u64) -> Stri
 
 /// `make` creates a fresh iterator; the reference sequence is what repeated `next()` yields (at most `limit` items,
 /// longer iterators are skipped).  From the positions 0, 1, 2, n/2, n-1, n (after that many `next()` calls) the rest
-/// is consumed by fold, count, last, nth(j)+next and for_each, and size_hint must bracket the remaining length.
+/// is consumed by fold, count, last, nth(j)+next, for_each and through a clone taken at that position, and size_hint
+/// must bracket the remaining length.
 pub fn iter_protocol<I, T>(name: &str, limit: usize, make: impl Fn() -> I, obs: &mut Obs)
 where
-    I: Iterator<Item = T>,
+    I: Iterator<Item = T> + Clone,
     T: PartialEq + core::fmt::Debug,
 {
     let mut reference: Vec<T> = vec![];
@@ -287,6 +288,16 @@ where
             it
         };
         let want = &reference[k..];
+        // a clone taken at this position continues like the original, and using the clone leaves the original alone
+        {
+            let mut orig = adv();
+            let mut cl = orig.clone();
+            let from_clone: Vec<T> = core::iter::from_fn(|| cl.next()).take(limit + 1).collect();
+            let from_orig: Vec<T> = core::iter::from_fn(|| orig.next()).take(limit + 1).collect();
+            if from_clone != want || from_orig != want {
+                obs.fail("iterator-protocol", format!("{name}: a clone taken after {k} items yields {} items, the original then {} items, next() on a fresh iterator {}", from_clone.len(), from_orig.len(), want.len()));
+            }
+        }
         let (lo, hi) = adv().size_hint();
         if lo > want.len() || hi.is_some_and(|h| h < want.len()) {
             obs.fail("iterator-protocol", format!("{name}: after {k} items size_hint = ({lo}, {hi:?}) but {} items remain", want.len()));
